@@ -201,9 +201,19 @@ def do_op(ctx, op):
         return c.send(b'x')
     if op == 'read':
         try:
-            return c.read_nonblocking(100, 0.05)
+            r = c.read_nonblocking(100, 0.05)
         except (TIMEOUT, EOF) as e:
-            return type(e).__name__
+            r = type(e).__name__
+        # the file-like read of a fixed number of characters as well (it goes through expect with the instance timeout)
+        old = c.timeout
+        c.timeout = 0.05
+        try:
+            c.read(2)
+        except (TIMEOUT, EOF):
+            pass
+        finally:
+            c.timeout = old
+        return r
     if op == 'with_exc':
         class Boom(Exception):
             pass
